@@ -7,7 +7,7 @@ from ..progen import gen_program, profile
 
 ID = "C02"
 PREFIX = ('c02:',)
-PROFILE = profile(group=16, spawn=20, start=8, catch=12, cancel=12, scope=8, forever=4, wait=4, ext=2, wrap=0, **{'raise': 10}, patterns={'cleanup_failure_under_outer_cancel': 2, 'shielded_group_failure': 1, 'shielded_start_caller_group_failure': 2, 'native_cancel_at_final_checkpoint': 2, 'native_cancel_after_prestart_failure': 2, '_chance': 32})
+PROFILE = profile(group=16, spawn=20, start=8, catch=12, cancel=12, scope=8, forever=4, wait=4, ext=2, wrap=0, **{'raise': 10}, patterns={'cleanup_failure_under_outer_cancel': 2, 'shielded_group_failure': 1, 'group_shielded_after_failure': 1, 'shielded_start_caller_group_failure': 2, 'native_cancel_at_final_checkpoint': 2, 'native_cancel_after_prestart_failure': 2, '_chance': 32})
 RULE = ('Hypothesis-generated task trees with failure-heavy weights (body and children raising tagged Boom(n) before, during or after being cancelled, from handlers and shielded cleanup, nested groups, start() children whose starter is cancelled while they unwind); non-trivial = a group with >= 2 distinct raisers, or a start() child raising after its caller was cancelled; distinct = distinct canonical JSON')
 ASSUMPTIONS = ["reference semantics (mirror) evaluated on public attributes cancel_called/shield of every scope on the chain; the only private access is fetching a child's handle scope object at its first step", 'every indefinite wait sits in a harness guard scope cancelled after 40 cycles', "asyncio's FIFO ready queue is not permuted; schedules vary through generated delays, cancel placement, external loop callbacks and loop configuration"]
 TECHNIQUE = 'Hypothesis-generated task-tree programs; multiset comparison of exception-group leaf identities against the recorded terminal exceptions'
